@@ -1,4 +1,311 @@
-"""Property-specific legs that do not run inside the evxmon workers (other toolchains, sanitizers, compile-time facts)."""
+"""Property-specific legs that do not run inside the evxmon workers: other toolchains (C16), sanitizers and the
+Miri interpreter (C15, C01), compile-time facts (Send/Sync, serde bounds), the CLI binary (C01)."""
+import hashlib
+import json
+import os
+import re
+import subprocess
+import time
+
+
+def _sh(cmd, cwd=None, env=None, timeout=3600):
+    try:
+        r = subprocess.run(cmd, cwd=cwd, env=env, stdout=subprocess.PIPE, stderr=subprocess.PIPE, text=True,
+                           timeout=timeout, errors="replace")
+        return r.returncode, r.stdout, r.stderr
+    except subprocess.TimeoutExpired as e:
+        return None, (e.stdout or b"").decode(errors="replace") if isinstance(e.stdout, bytes) else (e.stdout or ""), "TIMEOUT"
+
+
+def _repo_hash(repo):
+    h = hashlib.sha256()
+    paths = [os.path.join(repo, "Cargo.toml")]
+    for root, dirs, files in os.walk(os.path.join(repo, "src")):
+        dirs.sort()
+        for f in sorted(files):
+            paths.append(os.path.join(root, f))
+    for p in paths:
+        try:
+            with open(p, "rb") as fh:
+                h.update(p.encode())
+                h.update(fh.read())
+        except OSError:
+            pass
+    return h.hexdigest()
+
+
+def _crate_dir(E, name):
+    """Harness crate directory; with EVX_REPO set, a rendered copy pointing at that tree."""
+    src = os.path.join(E["HERE"], name)
+    if E["REPO"] == "/repo":
+        return src
+    tag = hashlib.sha256(E["REPO"].encode()).hexdigest()[:10]
+    dst = os.path.join(E["HERE"], "work", "%s-%s" % (name, tag))
+    os.makedirs(dst, exist_ok=True)
+    man = open(os.path.join(src, "Cargo.toml")).read().replace('path = "/repo"', 'path = "%s"' % E["REPO"])
+    open(os.path.join(dst, "Cargo.toml"), "w").write(man)
+    link = os.path.join(dst, "src")
+    if not os.path.islink(link):
+        os.symlink(os.path.join(src, "src"), link)
+    return dst
+
+
+def _cargo(E, cdir, args, target_dir, toolchain=None, extra_env=None, clean_pkg=True, timeout=3600, prog_args=None):
+    """cargo build/miri with a repo-hash stamp per target dir (forces evalexpr to be rebuilt when sources changed
+    even if mtimes went backwards)."""
+    env = dict(E["ENV"])
+    if extra_env:
+        env.update(extra_env)
+    tdir = os.path.join(cdir, target_dir)
+    os.makedirs(tdir, exist_ok=True)
+    stamp = os.path.join(tdir, "repo.stamp")
+    cur = _repo_hash(E["REPO"])
+    old = open(stamp).read().strip() if os.path.exists(stamp) else ""
+    tc = [toolchain] if toolchain else []
+    if old and old != cur and clean_pkg:
+        _sh(["cargo"] + tc + ["clean", "--offline", "-p", "evalexpr", "--target-dir", tdir], cwd=cdir, env=env)
+    tail = (["--"] + [str(a) for a in prog_args]) if prog_args else []
+    rc, out, err = _sh(["cargo"] + tc + args + ["--target-dir", tdir] + tail, cwd=cdir, env=env, timeout=timeout)
+    if rc == 0:
+        open(stamp, "w").write(cur)
+    return rc, out, err
+
+
+def _last_json(out):
+    for line in reversed(out.strip().splitlines()):
+        line = line.strip()
+        if line.startswith("{") and line.endswith("}"):
+            try:
+                return json.loads(line)
+            except Exception:  # noqa: BLE001
+                return None
+    return None
+
+
+def _viol(rule, inp, expected, observed, **kw):
+    d = dict(rule=rule, phase=None, idx=None, input=inp, expected=expected, observed=observed[-1800:])
+    d.update(kw)
+    return d
+
+
+# ----------------------------------------------------------------------------------------------------- C15
+
+def _sendsync(E, res):
+    cdir = _crate_dir(E, "sendsync")
+    rc, out, err = _cargo(E, cdir, ["build", "--offline"], "target")
+    if rc != 0:
+        if re.search(r"cannot be (sent|shared) between threads safely|`Send`|`Sync`", err):
+            src = open(os.path.join(E["HERE"], "sendsync", "src", "main.rs")).read().splitlines()
+            culprits = []
+            for m in re.finditer(r"src/main\.rs:(\d+):", err):
+                ln = int(m.group(1))
+                # the enclosing `fn <type>_is_send_sync`
+                for k in range(ln - 1, -1, -1):
+                    mm = re.match(r"fn (\w+)_is_send_sync", src[k]) if k < len(src) else None
+                    if mm:
+                        if mm.group(1) not in culprits:
+                            culprits.append(mm.group(1))
+                        break
+            first = next((l for l in err.splitlines() if l.startswith("error")), "error")
+            for c in culprits or ["?"]:
+                res["violations"].append(_viol("send-sync/static", "type `%s` (compile-time assertion T: Send + Sync in /verif/sendsync)" % c,
+                                               "T is Send + Sync", first + " …" + err[-900:], leg="sendsync"))
+        else:
+            res["inconclusive"].append("sendsync crate does not build (not a Send/Sync diagnostic): " + err[-400:])
+        return
+    rc, out, err = _sh([os.path.join(cdir, "target", "debug", "evx-sendsync")])
+    if rc != 0:
+        res["violations"].append(_viol("send-sync/runtime", "tree and contexts moved to another thread", "evaluates to 3", out[-300:] + err[-600:], leg="sendsync"))
+    else:
+        res["coverage"]["send_sync_static"] = out.strip()
+        res["evaluations"] += 3
+
+
+def _c15(E, tier, seed, res):
+    _sendsync(E, res)
+    cdir = _crate_dir(E, "c15")
+    cov = res["coverage"]
+    # native stress
+    rc, out, err = _cargo(E, cdir, ["build", "--offline", "--release"], "target")
+    if rc != 0:
+        res["inconclusive"].append("c15 crate does not build: " + err[-500:])
+        return
+    binary = os.path.join(cdir, "target", "release", "evx-c15")
+    nproc, rounds, threads = (6, 150, 16) if tier == "quick" else (16, 2500, 32)
+    procs = [subprocess.Popen([binary, str(rounds), str(threads), "24", str(seed * 1000 + i)], stdout=subprocess.PIPE,
+                              stderr=subprocess.PIPE, text=True, errors="replace") for i in range(nproc)]
+    inter, evals, events = 0, 0, 0
+    for i, p in enumerate(procs):
+        try:
+            out, err = p.communicate(timeout=1800)
+        except subprocess.TimeoutExpired:
+            p.kill()
+            res["inconclusive"].append("native concurrency stress: watchdog fired")
+            continue
+        j = _last_json(out)
+        if j is None:
+            if p.returncode and p.returncode < 0 or "panicked" in err:
+                res["violations"].append(_viol("concurrent/worker-died", "evx-c15 %d %d 24 %d" % (rounds, threads, seed * 1000 + i),
+                                               "all threads finish", "exit %s: %s" % (p.returncode, err[-600:]), leg="native",
+                                               cmd=[rounds, threads, 24, seed * 1000 + i]))
+            else:
+                res["inconclusive"].append("native concurrency stress: no summary (exit %s) %s" % (p.returncode, err[-200:]))
+            continue
+        evals += j["evaluations"]
+        inter += j["distinct_interleavings"]
+        events += j["slow_context_events"]
+        if len(res["samples"]) < 4:
+            res["samples"] += ["interleaving (thread ids in global order of SlowContext calls): " + s for s in j["interleaving_samples"][:2]]
+        if j["mismatches"] > 0 or p.returncode != 0:
+            lines = [l for l in out.splitlines() if l.startswith("MISMATCH")]
+            res["violations"].append(_viol("concurrent/result-differs-from-sequential",
+                                           "evx-c15 %d %d 24 %d (shared Arc<Node> x shared contexts, %d threads)" % (rounds, threads, seed * 1000 + i, threads),
+                                           "every concurrent result equals the sequential one", "\n".join(lines[:4]) or out[-400:],
+                                           leg="native", cmd=[rounds, threads, 24, seed * 1000 + i]))
+    cov["native_evaluations"] = evals
+    cov["distinct_interleaving_signatures"] = inter
+    cov["slow_context_events_logged"] = events
+    res["evaluations"] += evals
+    res["distinct"] += inter
+    # Miri: UB + data-race interpreter, one schedule per seed
+    nseeds = 8 if tier == "quick" else 64
+    lo = (seed % 1000) * nseeds
+    t0 = time.time()
+    done = 0
+    for a in range(lo, lo + nseeds, 16):
+        b = min(a + 16, lo + nseeds)
+        rc, out, err = _cargo(E, cdir, ["miri", "run", "--offline"], "target/miri", toolchain="+nightly",
+                              extra_env={"MIRIFLAGS": "-Zmiri-many-seeds=%d..%d" % (a, b)}, clean_pkg=False, timeout=3000,
+                              prog_args=[1, 4, 6, seed])
+        if rc is None:
+            res["inconclusive"].append("miri leg: watchdog fired")
+            break
+        text = out + "\n" + err
+        summaries = [l for l in out.splitlines() if l.startswith("{")]
+        done += len(summaries)
+        if rc != 0:
+            if re.search(r"Undefined Behavior|Data race detected|data race", text):
+                m = re.search(r"(error: Undefined Behavior.*?)(?:\n\n|\Z)", text, re.S)
+                res["violations"].append(_viol("concurrent/miri", "cargo +nightly miri run (seeds %d..%d) of /verif/c15" % (a, b),
+                                               "no undefined behaviour, no data race", (m.group(1) if m else text)[-1500:], leg="miri", seeds=[a, b]))
+            elif "MISMATCH" in text:
+                res["violations"].append(_viol("concurrent/result-differs-from-sequential", "under miri, seeds %d..%d" % (a, b),
+                                               "every concurrent result equals the sequential one",
+                                               "\n".join([l for l in text.splitlines() if "MISMATCH" in l][:4]), leg="miri", seeds=[a, b]))
+            else:
+                res["inconclusive"].append("miri leg failed without a UB / race report: " + text[-400:])
+                break
+    cov["miri_seeds_run"] = done
+    cov["miri_wall_s"] = round(time.time() - t0, 1)
+    res["evaluations"] += done * 48
+    # ThreadSanitizer (thorough only)
+    if tier == "thorough":
+        rc, out, err = _cargo(E, cdir, ["build", "--offline", "--release", "-Zbuild-std", "--target", "x86_64-unknown-linux-gnu"],
+                              "target/tsan", toolchain="+nightly", extra_env={"RUSTFLAGS": "-Zsanitizer=thread"}, clean_pkg=False)
+        if rc != 0:
+            res["inconclusive"].append("tsan build failed: " + err[-400:])
+        else:
+            tb = os.path.join(cdir, "target", "tsan", "x86_64-unknown-linux-gnu", "release", "evx-c15")
+            env = dict(E["ENV"], TSAN_OPTIONS="halt_on_error=1 exitcode=66")
+            rc, out, err = _sh([tb, "400", "16", "24", str(seed)], env=env, timeout=3000)
+            j = _last_json(out)
+            if rc == 66 or "ThreadSanitizer" in err:
+                res["violations"].append(_viol("concurrent/tsan", "ThreadSanitizer build of /verif/c15, 400 rounds x 16 threads",
+                                               "no data race", err[-1500:], leg="tsan"))
+            elif rc != 0:
+                res["violations"].append(_viol("concurrent/result-differs-from-sequential", "under ThreadSanitizer", "equal results",
+                                               out[-600:], leg="tsan"))
+            elif j:
+                cov["tsan_evaluations"] = j["evaluations"]
+                res["evaluations"] += j["evaluations"]
+
+
+# ----------------------------------------------------------------------------------------------------- C16
+
+def _c16(E, tier, seed, res):
+    cdir = _crate_dir(E, "c16")
+    try:
+        lock = open(os.path.join(E["REPO"], "Cargo.lock")).read()
+        open(os.path.join(cdir, "Cargo.lock"), "w").write(lock)
+    except OSError:
+        pass
+    rc, out, err = _cargo(E, cdir, ["build", "--offline", "--release"], "target", toolchain="+1.81.0")
+    if rc != 0:
+        if re.search(r"E0277|E0599", err) and re.search(r"Serialize|Deserialize", err) and "evx-c16" in err:
+            first = "\n".join([l for l in err.splitlines() if l.startswith("error")][:3])
+            res["violations"].append(_viol("serde/does-not-compile",
+                                           "HashMapContext<DefaultNumericTypes> / Node with the serde feature (harness crate /verif/c16)",
+                                           "implements Serialize + DeserializeOwned", first + "\n" + err[-900:], leg="c16-build"))
+        else:
+            res["inconclusive"].append("c16 crate does not build: " + err[-500:])
+        return
+    binary = os.path.join(cdir, "target", "release", "evx-c16")
+    nproc, ns, nc = (8, 25000, 4000) if tier == "quick" else (16, 600000, 120000)
+    procs = [subprocess.Popen([binary, str(ns), str(nc), str(seed * 1000 + i)], stdout=subprocess.PIPE, stderr=subprocess.PIPE,
+                              text=True, errors="replace") for i in range(nproc)]
+    cov = res["coverage"]
+    tot = dict(strings=0, trees_ok=0, trees_err=0, contexts=0, contexts_round_tripped=0)
+    for i, p in enumerate(procs):
+        try:
+            out, err = p.communicate(timeout=3000)
+        except subprocess.TimeoutExpired:
+            p.kill()
+            res["inconclusive"].append("c16: watchdog fired")
+            continue
+        j = _last_json(out)
+        cmd = [ns, nc, seed * 1000 + i]
+        if j is None:
+            if "panicked" in err or (p.returncode or 0) < 0:
+                res["violations"].append(_viol("serde/panic", "evx-c16 %d %d %d" % tuple(cmd), "round trips return", err[-800:], leg="c16", cmd=cmd))
+            else:
+                res["inconclusive"].append("c16: no summary (exit %s) %s" % (p.returncode, err[-200:]))
+            continue
+        for k in tot:
+            tot[k] += j[k]
+        res["evaluations"] += j["evaluations"]
+        res["distinct"] += j["distinct"]
+        if len(res["samples"]) < 8:
+            res["samples"] += j["samples"][:4]
+        if j["mismatches"] > 0:
+            for l in [l for l in out.splitlines() if l.startswith("MISMATCH")][:6]:
+                body = l[len("MISMATCH "):]
+                rule = "serde/" + body.split(":", 1)[0].strip()
+                res["violations"].append(_viol(rule, body[:1500], "deserialize(serialize(x)) behaves like x", body[:1500], leg="c16", cmd=cmd))
+    cov.update({"serde_" + k: v for k, v in tot.items()})
+
+
+# ----------------------------------------------------------------------------------------------------- C01 extras
+
+def _c01(E, tier, seed, res):
+    """thorough only: the CLI binary on hostile arguments, and a sample of the API-surface workload under Miri"""
+    if tier != "thorough":
+        return
+    cdir = E["REPO"]
+    tdir = os.path.join(E["HERE"], "work", "cli-target")
+    rc, out, err = _sh(["cargo", "build", "--offline", "--bin", "evalexpr", "--target-dir", tdir], cwd=cdir, env=E["ENV"])
+    if rc != 0:
+        res["inconclusive"].append("CLI binary does not build: " + err[-300:])
+        return
+    binary = os.path.join(tdir, "debug", "evalexpr")
+    import random
+    rnd = random.Random(seed)
+    soup = ["+", "-", "*", "/", "%", "^", "(", ")", ",", ";", "=", "!", "<", ">", "&", "|", "\"", "\\", "/*", "//", " ", "0", "9",
+            "e", "x", ".", "a", "f", "true", "math::", "shl", "shr", "len", "str::substring", "äb", "😀", "9223372036854775807",
+            "-9223372036854775808", "64", "math::abs", "min", "max", "1e999", "0x"]
+    ran = 0
+    for i in range(300):
+        n = rnd.randint(1, 12)
+        args = [rnd.choice(soup) for _ in range(n)]
+        rc, out, err = _sh([binary] + args, timeout=60)
+        ran += 1
+        if rc is None:
+            res["inconclusive"].append("CLI: timeout on %r" % (args,))
+            continue
+        if rc not in (0, 1) or "panicked" in err:
+            res["violations"].append(_viol("panic", "CLI: evalexpr " + " ".join(args), "exit status 0 or 1, no panic",
+                                           "exit %s: %s" % (rc, err[-500:]), leg="cli", cmd=args))
+    res["coverage"]["cli_invocations"] = ran
+    res["evaluations"] += ran
 
 
 def build_failure_verdict(prop, cargo_output):
@@ -6,14 +313,58 @@ def build_failure_verdict(prop, cargo_output):
     return None
 
 
-def run(prop, tier, seed, workdir, env):
-    return None
+def run(prop, tier, seed, workdir, E):
+    res = dict(violations=[], inconclusive=[], evaluations=0, distinct=0, coverage={}, samples=[])
+    if prop == "C15":
+        _c15(E, tier, seed, res)
+    elif prop == "C16":
+        _c16(E, tier, seed, res)
+    elif prop == "C01":
+        _c01(E, tier, seed, res)
+    else:
+        return None
+    return res
 
 
-def replay(prop, witness, env):
-    print("INCONCLUSIVE this witness has no replay procedure")
-    return 2
+def replay(prop, w, E):
+    """Special-leg witnesses are replayed by re-running the whole leg at the recorded tier and seed."""
+    res = dict(violations=[], inconclusive=[], evaluations=0, distinct=0, coverage={}, samples=[])
+    if prop == "C15":
+        _c15(E, w.get("tier", "quick"), w.get("seed", 1), res)
+    elif prop == "C16":
+        _c16(E, w.get("tier", "quick"), w.get("seed", 1), res)
+    elif prop == "C01":
+        _c01(E, "thorough", w.get("seed", 1), res)
+    else:
+        print("INCONCLUSIVE this witness has no replay procedure")
+        return 2
+    hits = [v for v in res["violations"] if v["rule"] == w.get("rule")]
+    if hits:
+        v = hits[0]
+        print("replay [%s] %s\n   expected %s\n   observed %s" % (v["rule"], v["input"][:400], v["expected"], v["observed"][:600]))
+        print("VIOLATION property=%s replay=%s" % (prop, w.get("replay_path", "")))
+        return 1
+    if res["inconclusive"]:
+        print("INCONCLUSIVE " + res["inconclusive"][0])
+        return 2
+    print("replay: the recorded violation no longer occurs")
+    return 0
 
 
-def setup(env):
-    return True
+def setup(E):
+    ok = True
+    for name, args, tdir, tc in (("sendsync", ["build", "--offline"], "target", None),
+                                 ("c15", ["build", "--offline", "--release"], "target", None)):
+        rc, out, err = _cargo(E, _crate_dir(E, name), args, tdir, toolchain=tc)
+        ok = ok and rc == 0
+    cdir = _crate_dir(E, "c16")
+    try:
+        open(os.path.join(cdir, "Cargo.lock"), "w").write(open(os.path.join(E["REPO"], "Cargo.lock")).read())
+    except OSError:
+        pass
+    rc, out, err = _cargo(E, cdir, ["build", "--offline", "--release"], "target", toolchain="+1.81.0")
+    ok = ok and rc == 0
+    # warm the miri build of c15 (sysroot + dependencies)
+    _cargo(E, _crate_dir(E, "c15"), ["miri", "run", "--offline"], "target/miri", toolchain="+nightly",
+           extra_env={"MIRIFLAGS": "-Zmiri-many-seeds=0..1"}, clean_pkg=False, timeout=1800, prog_args=[1, 2, 2, 1])
+    return ok
